@@ -64,6 +64,7 @@ const specJSON = `{"openapi":"3.0.3","info":{"title":"t","version":"1"},"paths":
   "200":{"description":"ok","content":{"application/json":{"schema":{"type":"object","required":["ok"],"properties":{"ok":{"type":"boolean"},"m":{"type":"string"}},"additionalProperties":false}}}},
   "201":{"description":"created"},
   "418":{"description":"teapot","headers":{"X-Tea":{"required":true,"schema":{"type":"string"}}}}}}},
+ "/it/{id}":{"get":{"parameters":[{"name":"id","in":"path","required":true,"schema":{"type":"string"}}],"responses":{"200":{"description":"ok"}}}},
  "/g":{"get":{"parameters":[{"name":"q","in":"query","required":true,"schema":{"type":"integer"}}],"responses":{"200":{"description":"ok"}}}},
  "/sec":{"post":{"security":[{"key":[]}],"responses":{"200":{"description":"ok"}}}}},
  "components":{"securitySchemes":{"key":{"type":"apiKey","name":"X-Key","in":"header"}}}}`
@@ -108,6 +109,9 @@ func request(kind string) *http.Request {
 		return httptest.NewRequest("HEAD", "http://localhost/g?q=1", nil)
 	case "unroutable-head-bad":
 		return httptest.NewRequest("HEAD", "http://localhost/g", nil)
+	case "unroutable-slash":
+		// two segments where the template has one; the same path with the slash escaped is routed
+		return httptest.NewRequest("GET", "http://localhost/it/a/b", nil)
 	case "unroutable-method":
 		return httptest.NewRequest("DELETE", "http://localhost/r?q=1", nil)
 	case "invalid":
@@ -156,6 +160,9 @@ func prelude(kind string, wrap func(http.Handler) http.Handler) {
 		body = ""
 	case "invalid", "unroutable":
 		req = request(kind)
+	case "escaped-path":
+		req = httptest.NewRequest("GET", "http://localhost/it/a%2Fb", nil)
+		body = ""
 	case "bad-response":
 		body = `{"ok":"no","extra":1}`
 	}
@@ -509,9 +516,9 @@ func gen(t *rapid.T) Case {
 		}
 		s = append(s, a)
 	}
-	c := Case{Request: rapid.SampledFrom([]string{"valid", "valid", "valid", "invalid", "unroutable", "valid-pl", "invalid-pl", "invalid-pl-header", "invalid-secured", "unroutable-head", "unroutable-head-bad", "unroutable-method"}).Draw(t, "request"), Script: s,
+	c := Case{Request: rapid.SampledFrom([]string{"valid", "valid", "valid", "invalid", "unroutable", "valid-pl", "invalid-pl", "invalid-pl-header", "invalid-secured", "unroutable-head", "unroutable-head-bad", "unroutable-method", "unroutable-slash", "unroutable-slash"}).Draw(t, "request"), Script: s,
 		Strict: rapid.Bool().Draw(t, "strict"), OnErr: rapid.Bool().Draw(t, "onerr"), Front: rapid.SampledFrom([]string{"validator", "validator", "validator", "handler-serve", "handler-middleware"}).Draw(t, "front"),
-		Prelude: rapid.SampledFrom([]string{"", "", "head", "invalid", "unroutable", "bad-response", "good-response"}).Draw(t, "prelude"),
+		Prelude: rapid.SampledFrom([]string{"", "", "head", "invalid", "unroutable", "bad-response", "good-response", "escaped-path", "escaped-path"}).Draw(t, "prelude"),
 		VOpts:   rapid.SampledFrom([]int{0, 0, 1, 2, 3, 4, 5, 7}).Draw(t, "vopts")}
 	c.PlainClient = c.Front == "validator" && rapid.IntRange(0, 3).Draw(t, "plainclient") == 0
 	if c.Request == "invalid-secured" {
